@@ -225,6 +225,8 @@ def make_small(rng):
 def make_big(rng, size):
     names = ["b%05d" % i for i in range(size)]
     kind = rng.choice(["chain", "chain", "star", "grid", "caterpillar", "chain-shuffled"])
+    if size >= 2000 and size % 1000 != 0:
+        kind = "caterpillar"  # deep AND branching: more than 1000 levels with a leaf at every level
     if kind == "chain":
         scopes = [[names[i], names[i + 1]] for i in range(size - 1)]
     elif kind == "chain-shuffled":
@@ -244,6 +246,8 @@ def make_big(rng, size):
     else:  # caterpillar: a long spine with one leaf per spine node
         half = size // 2
         scopes = [[names[i], names[i + 1]] for i in range(half - 1)] + [[names[i], names[half + i]] for i in range(size - half)]
+        if rng.random() < 0.25:
+            scopes = scopes[half - 1:] + scopes[:half - 1]  # leaf constraints declared first
     return light_case(names, scopes), kind
 
 
@@ -307,7 +311,7 @@ def main(chk, tier, seed):
     chk.rule = RULE
     chk.assumptions = ["only the structure matters: constraints are zero-valued function relations", "sizes up to 4000"]
     n = 900 if tier == "quick" else 12000
-    bigs = [120, 300, 600, 1000, 1500] if tier == "quick" else [120, 300, 450, 520, 600, 800, 1000, 1500, 2000, 3000, 4000, 2500, 700, 900]
+    bigs = [120, 300, 600, 1000, 1500, 2400, 2400, 2400] if tier == "quick" else [120, 300, 450, 520, 600, 800, 1000, 1500, 2000, 3000, 4000, 2500, 700, 900]
     nbig = len(bigs) * (2 if tier == "quick" else 3)
     total = n + nbig
     big = {}
